@@ -7,6 +7,7 @@ package main
 import (
 	"fmt"
 	"go/types"
+	"os"
 	"strings"
 
 	"golang.org/x/tools/go/ssa"
@@ -379,7 +380,24 @@ func init() {
 		e := fr.e
 		path := args[0].(Str)
 		ok, err := e.fsFork3("open", "ErrNotExist")
-		e.fsRecord("open", path, Str{}, ok)
+		// os.OpenFile: the second path field of the event names the flags
+		flags := Str{}
+		if len(args) >= 2 {
+			if ft, isTerm := args[1].(*Term); isTerm && ft.IsConst() {
+				var names []string
+				f := int(ft.k)
+				for _, fl := range []struct {
+					bit  int
+					name string
+				}{{os.O_WRONLY, "wronly"}, {os.O_RDWR, "rdwr"}, {os.O_APPEND, "append"}, {os.O_CREATE, "creat"}, {os.O_EXCL, "excl"}, {os.O_TRUNC, "trunc"}, {os.O_SYNC, "sync"}} {
+					if f&fl.bit != 0 {
+						names = append(names, fl.name)
+					}
+				}
+				flags = e.strConst(strings.Join(names, ","))
+			}
+		}
+		e.fsRecord("open", path, flags, ok)
 		if !ok {
 			return Tuple{(*Value)(nil), err}
 		}
